@@ -18,6 +18,77 @@ Lemma seq_of_add_fee s d b : seq_of (add_fee s d) b = seq_of s b.
 Proof. reflexivity. Qed.
 Lemma bal_of_add_fee s d b : bal_of (add_fee s d) b = bal_of s b.
 Proof. reflexivity. Qed.
+Lemma seq_of_add_ran s l b : seq_of (add_ran s l) b = seq_of s b.
+Proof. reflexivity. Qed.
+Lemma bal_of_add_ran s l b : bal_of (add_ran s l) b = bal_of s b.
+Proof. reflexivity. Qed.
+
+(** ---------------------------------------------------------------- the Ethereum msg server on one message *)
+(** gas reported by the EVM lies between 0 and the gas limit *)
+Lemma eth_exec_used s a g v x :
+  0 <= x_intr x -> 0 <= x_exec x -> x_intr x <= g -> 0 <= r_used (eth_exec s a g v x) <= g.
+Proof.
+  intros Hi He Hg. unfold eth_exec.
+  destruct (bal_of s a <? v); simpl; [lia|].
+  destruct (g - x_intr x <? x_exec x) eqn:E; simpl; [lia|].
+  apply Z.ltb_ge in E. destruct (x_out x); simpl; lia.
+Qed.
+
+Lemma bal_if_set (t : bool) s a n b : bal_of (if t then set_seq s a n else s) b = bal_of s b.
+Proof. destruct t; reflexivity. Qed.
+
+(** a successful handler run, spelled out *)
+Lemma leaf_run_eth_form c w s a n g p v x s1 :
+  leaf_run c w s (EthTx a n g p v x) = Some s1 ->
+  x_intr x <= g /\
+  let r := eth_exec s a g v x in
+  let s0 := if nonce_reset c then set_seq s a n else s in
+  let s1' := if r_evm_nonce r then set_seq s0 a (S (seq_of s0 a)) else s0 in
+  let s2 := if post_nonce c (x_kind x) then set_seq s1' a (S n) else s1' in
+  let s3 := if r_ok r then add_bal (add_bal s2 a (- v)) (w_sink w) v else s2 in
+  let refund := refund_of g (r_used r) p in
+  s1 = add_ran (add_fee (add_bal s3 a refund) (- refund)) (EthTx a n g p v x).
+Proof.
+  unfold leaf_run. destruct (g <? x_intr x) eqn:Hg; [discriminate|]. apply Z.ltb_ge in Hg.
+  cbv zeta. destruct (feecol s <? _); [discriminate|]. intro H. inversion H. split; [exact Hg|reflexivity].
+Qed.
+
+Lemma leaf_run_eth_ran c w s a n g p v x s1 :
+  leaf_run c w s (EthTx a n g p v x) = Some s1 -> ran s1 = EthTx a n g p v x :: ran s /\ grants s1 = grants s.
+Proof.
+  intro H. apply leaf_run_eth_form in H as [_ H]. cbv zeta in H. subst s1.
+  destruct (r_ok _), (r_evm_nonce _), (nonce_reset c), (post_nonce c _); split; reflexivity.
+Qed.
+
+(** the handler writes msg.nonce + 1 — when the write after the EVM invocation is there for this kind of message *)
+Lemma leaf_run_eth_seq c w s a n g p v x s1 :
+  post_nonce c (x_kind x) = true ->
+  leaf_run c w s (EthTx a n g p v x) = Some s1 ->
+  forall b, seq_of s1 b = if Nat.eqb b a then S n else seq_of s b.
+Proof.
+  intros Hp H b. apply leaf_run_eth_form in H as [_ H]. cbv zeta in H. subst s1. rewrite Hp.
+  rewrite seq_of_add_ran, seq_of_add_fee, seq_of_add_bal.
+  destruct (r_ok _); rewrite ?seq_of_add_bal, seq_of_set_seq; (destruct (Nat.eqb b a) eqn:E; [reflexivity|]);
+    destruct (r_evm_nonce _), (nonce_reset c); rewrite ?seq_of_set_seq, ?E; reflexivity.
+Qed.
+
+(** without it the sequence may end anywhere at or above msg.nonce (never below: needs the reset or the admission) *)
+
+(** the only credit to the sender is the refund, never more than gas limit × price *)
+Lemma leaf_run_eth_bal c w s a n g p v x s1 :
+  0 <= p -> 0 <= v -> 0 <= x_intr x -> 0 <= x_exec x ->
+  leaf_run c w s (EthTx a n g p v x) = Some s1 ->
+  forall b, b <> w_sink w -> bal_of s1 b <= bal_of s b + (if Nat.eqb b a then (g * p) / WEI else 0).
+Proof.
+  intros Hp Hv Hi He H b Hb. apply leaf_run_eth_form in H as [Hg H]. cbv zeta in H. subst s1.
+  pose proof (eth_exec_used s a g v x Hi He Hg) as Hu.
+  assert (Hle : refund_of g (r_used (eth_exec s a g v x)) p <= g * p / WEI).
+  { unfold refund_of. apply Z.div_le_mono; [unfold WEI; lia|nia]. }
+  rewrite bal_of_add_ran, bal_of_add_fee, bal_of_add_bal.
+  destruct (Nat.eqb b (w_sink w)) eqn:E1; [apply Nat.eqb_eq in E1; contradiction|].
+  destruct (r_ok _); rewrite ?bal_of_add_bal, ?E1, !bal_if_set; destruct (Nat.eqb b a) eqn:E2;
+    try (apply Nat.eqb_eq in E2; subst b); rewrite ?bal_if_set, ?E1, ?Nat.eqb_refl; lia.
+Qed.
 
 (** ---------------------------------------------------------------- hypotheses about the outside world *)
 Section World.
@@ -34,7 +105,7 @@ Section World.
 
   (** Hdisj, other half: the address a MsgEthereumTx signature recovers to IS Ethereum-key-derived *)
   Definition leaf_wf (l : leaf) : Prop :=
-    match l with EthTx a _ _ _ _ | EthTxAs _ a _ _ _ _ => w_is_eth w a = true | _ => True end.
+    match l with EthTx a _ _ _ _ _ | EthTxAs _ a _ _ _ _ _ => w_is_eth w a = true | _ => True end.
   Definition msg_wf (t : msg) : Prop := Forall leaf_wf (leaves leaf t).
   Definition tx_wf (x : tx) : Prop := Forall msg_wf (t_msgs x).
 
@@ -73,7 +144,7 @@ Section World.
   (** ---------------------------------------------------------------- unfolding equations *)
   Variable c : cfg.
 
-  Lemma run_msg_leaf l s : run_msg c w (Leaf l) s = leaf_run w s l.
+  Lemma run_msg_leaf l s : run_msg c w (Leaf l) s = leaf_run c w s l.
   Proof. reflexivity. Qed.
   Lemma run_msg_exec g cs s :
     run_msg c w (Exec g cs) s =
@@ -115,7 +186,7 @@ Section World.
     induction t as [l|g cs IH|snd ct cs IH|p cs IH|r a cs IH] using (tree_ind' leaf); intros Hwf s s' Hsig Hg Hrun.
     - rewrite run_msg_leaf in Hrun. unfold msg_wf in Hwf. simpl in Hwf. inversion Hwf as [|? ? Hl _]. subst.
       unfold signer_msg in Hsig. simpl in Hsig. rewrite Hrecov in Hsig.
-      destruct l as [a n gas price value|from|a b k|cl a n gas price value]; simpl in *; [congruence| | |congruence].
+      destruct l as [a n gas price value xi|from|a b k|cl a n gas price value xi]; simpl in Hsig, Hl; [congruence| | |congruence]; simpl in Hrun.
       + destruct (bal_of s from <? 1); [discriminate|]. inversion Hrun. subst. split; [exact Hg|].
         repeat split; auto. rewrite !bal_of_add_bal.
         destruct (Nat.eqb a (w_sink w)) eqn:E1.
@@ -224,7 +295,7 @@ Lemma direct_eth_parts ms ls :
   direct_eth ms = Some ls -> Forall (fun m => exists l, m = Leaf l /\ is_eth_leaf l = true) ms.
 Proof.
   revert ls. induction ms as [|m ms IH]; intros ls H; [constructor|].
-  simpl in H. destruct m as [[a n g p v|?|? ? ?|? ? ? ? ? ?]| | | |]; try discriminate.
+  simpl in H. destruct m as [[a n g p v xi|?|? ? ?|? ? ? ? ? ? ?]| | | |]; try discriminate.
   destruct (direct_eth ms) as [r|] eqn:E; [|discriminate].
   constructor; [eexists; split; [reflexivity|reflexivity]|]. eapply IH; eauto.
 Qed.
@@ -237,12 +308,12 @@ Lemma evm_admit_admits c ms s s1 :
 Proof.
   intros Hgas Hexact Hseq. revert s. induction ms as [|m ms IH]; intros s H; simpl in H.
   - inversion H. subst. exists []. split; [reflexivity|constructor].
-  - destruct m as [[a n g p v|?|? ? ?|? ? ? ? ? ?]| | | |]; simpl in H; try discriminate.
+  - destruct m as [[a n g p v xi|?|? ? ?|? ? ? ? ? ? ?]| | | |]; simpl in H; try discriminate.
     unfold evm_admit_one in H. rewrite Hgas, Hseq, Hexact in H. unfold prepay in H.
     destruct (bal_of s a <? g * p / WEI) eqn:Hb; [discriminate|].
     rewrite seq_of_add_fee, seq_of_add_bal in H.
     destruct (Nat.eqb n (seq_of s a)) eqn:Hn; [|discriminate].
-    apply IH in H as (ls & Hd & Hadm). exists (EthTx a n g p v :: ls). split.
+    apply IH in H as (ls & Hd & Hadm). exists (EthTx a n g p v xi :: ls). split.
     + simpl. rewrite Hd. reflexivity.
     + apply Nat.eqb_eq in Hn. constructor; auto. lia.
 Qed.
@@ -258,23 +329,20 @@ Lemma run_direct_eth c w ms ls :
 Proof.
   revert ls. induction ms as [|m ms IH]; intros ls Hd s s' Hrun.
   - simpl in Hd. inversion Hd. subst. unfold run_msgs in Hrun. simpl in Hrun. inversion Hrun. subst. auto.
-  - simpl in Hd. destruct m as [[a n g p v|?|? ? ?|? ? ? ? ? ?]| | | |]; try discriminate.
+  - simpl in Hd. destruct m as [[a n g p v xi|?|? ? ?|? ? ? ? ? ? ?]| | | |]; try discriminate.
     destruct (direct_eth ms) as [r|] eqn:E; [|discriminate]. inversion Hd. subst. clear Hd.
     rewrite run_msgs_cons, run_msg_leaf in Hrun.
-    destruct (leaf_run w s (EthTx a n g p v)) as [s1|] eqn:Hl; [|discriminate].
+    destruct (leaf_run c w s (EthTx a n g p v xi)) as [s1|] eqn:Hl; [|discriminate].
     destruct (IH r eq_refl s1 s' Hrun) as [Hr Hg].
-    simpl in Hl.
-    destruct (g <? GAS_TRANSFER); [discriminate|].
-    destruct (bal_of s a <? v); [discriminate|].
-    destruct (feecol s <? refund_of g p); [discriminate|].
-    inversion Hl. subst. simpl in *. split; [|exact Hg].
-    rewrite Hr. rewrite <- app_assoc. reflexivity.
+    apply leaf_run_eth_ran in Hl as [Hl1 Hl2]. split; [|congruence].
+    rewrite Hr, Hl1. simpl. rewrite <- app_assoc. reflexivity.
 Qed.
 
 (** ---------------------------------------------------------------- what must hold of the code *)
 Definition cfg_ok (c : cfg) : Prop :=
   sig_on c = true /\ sig_accepts_eth c = false /\ wasm_signer c = true /\ signer_recovered c = true /\
   e_gas c = true /\ fee_exact c = true /\ e_seq c = true /\ e_sig c = true /\
+  post_nonce_call c = true /\ post_nonce_create c = true /\
   route_tx c NoExt = RouteNonEVM /\ route_tx c OtherExt <> RouteEVM /\
   (route_tx c EvmExt = RouteEVM \/ route_tx c EvmExt = RouteReject).
 
@@ -289,6 +357,7 @@ Proof. destruct a, b; simpl; split; intro H; try discriminate; auto. Qed.
 
 Definition cfg_okb (c : cfg) : bool :=
   sig_on c && negb (sig_accepts_eth c) && wasm_signer c && signer_recovered c && e_gas c && fee_exact c && e_seq c && e_sig c &&
+  post_nonce_call c && post_nonce_create c &&
   route_eqb (route_tx c NoExt) RouteNonEVM && negb (route_eqb (route_tx c OtherExt) RouteEVM) &&
   (route_eqb (route_tx c EvmExt) RouteEVM || route_eqb (route_tx c EvmExt) RouteReject).
 
@@ -302,6 +371,9 @@ Proof.
   - apply orb_true_iff in H0 as [E|E]; apply route_eqb_eq in E; auto.
 Qed.
 
+Lemma cfg_ok_post_nonce c k : cfg_ok c -> post_nonce c k = true.
+Proof. intros (_ & _ & _ & _ & _ & _ & _ & _ & H1 & H2 & _). destruct k; assumption. Qed.
+
 (** ---------------------------------------------------------------- the main statement, one transaction *)
 (** [l] ran behind the EVM ante pipeline in transaction [x] delivered in state [s] *)
 Definition admitted_in (s : st) (x : tx) (l : leaf) : Prop :=
@@ -312,10 +384,22 @@ Lemma direct_eth_In ms ls l : direct_eth ms = Some ls -> In l ls -> In (Leaf l) 
 Proof.
   revert ls. induction ms as [|m ms IH]; intros ls H Hin; simpl in H.
   - inversion H. subst. contradiction.
-  - destruct m as [[a n g p v|?|? ? ?|? ? ? ? ? ?]| | | |]; try discriminate.
+  - destruct m as [[a n g p v xi|?|? ? ?|? ? ? ? ? ? ?]| | | |]; try discriminate.
     destruct (direct_eth ms) as [r|] eqn:E; [|discriminate]. inversion H. subst.
     destruct Hin as [<-|Hin]; [now left|right; eapply IH; eauto].
 Qed.
+
+Lemma direct_eth_In_rev ms ls l : direct_eth ms = Some ls -> In (Leaf l) ms -> In l ls.
+Proof.
+  revert ls. induction ms as [|m ms IH]; intros ls H Hin; simpl in H; [contradiction|].
+  destruct m as [[a n g p v xi|?|? ? ?|? ? ? ? ? ? ?]| | | |]; try discriminate.
+  destruct (direct_eth ms) as [r|] eqn:E; [|discriminate]. inversion H. subst.
+  destruct Hin as [E1|Hin]; [inversion E1; now left|right; eapply IH; eauto].
+Qed.
+
+(** the EVM ante chain succeeded only if its message loop did *)
+Lemma evm_ante_admit c w s x s1 : evm_ante c w s x = Some s1 -> evm_admit c (t_msgs x) s = Some s1.
+Proof. unfold evm_ante. match goal with |- context [if ?b then _ else _] => destruct b end; [auto|discriminate]. Qed.
 
 Theorem deliver_eth_only_behind_evm_ante c w s x :
   cfg_ok c -> world_ok w -> tx_wf w x -> grants_ok w s ->
@@ -323,7 +407,7 @@ Theorem deliver_eth_only_behind_evm_ante c w s x :
   grants_ok w s' /\
   exists added, ran s' = added ++ ran s /\ forall l, In l added -> admitted_in s x l.
 Proof.
-  intros (Hsigon & Hsig & Hwasm & Hrecov & Hgas & Hexact & Hseq & _ & Hno & Hother & Hevm) Hw Hwf Hg.
+  intros (Hsigon & Hsig & Hwasm & Hrecov & Hgas & Hexact & Hseq & _ & _ & _ & Hno & Hother & Hevm) Hw Hwf Hg.
   destruct (route_tx c (t_ext x)) eqn:Hroute.
   - (* non-EVM route: nothing runs *)
     destruct (nonevm_deliver_frame w c Hw Hwasm Hrecov Hsigon Hsig s x Hwf Hg Hroute) as (Hg' & Hran & _).
@@ -377,51 +461,111 @@ Proof.
       right. exists h1, y, (h2 ++ [x]). split; [|exact Hy]. rewrite E. rewrite <- app_assoc. reflexivity.
 Qed.
 
-(** ---------------------------------------------------------------- corollaries *)
+(** ---------------------------------------------------------------- nonces: matched, consumed once, never again *)
 
 (** admission only moves sequences forward, and every admitted nonce is at least the sender's sequence
     at the start of the transaction *)
 Lemma admit_seq_mono s ls s1 : admit_seq s ls s1 -> forall b, (seq_of s b <= seq_of s1 b)%nat.
 Proof.
-  induction 1 as [|s a n g p v r s' Hn Hb _ IH]; intro b; [lia|].
+  induction 1 as [|s a n g p v xi r s' Hn Hb _ IH]; intro b; [lia|].
   specialize (IH b). rewrite seq_of_set_seq in IH. rewrite seq_of_add_fee, seq_of_add_bal in IH.
   destruct (Nat.eqb b a) eqn:E; [apply Nat.eqb_eq in E; subst; lia|lia].
 Qed.
 
 Lemma admit_seq_nonce_ge s ls s1 :
-  admit_seq s ls s1 -> forall a n g p v, In (EthTx a n g p v) ls -> (seq_of s a <= n)%nat.
+  admit_seq s ls s1 -> forall a n g p v xi, In (EthTx a n g p v xi) ls -> (seq_of s a <= n)%nat.
 Proof.
-  induction 1 as [|s a n g p v r s' Hn Hb Hadm IH]; intros a' n' g' p' v' Hin; [contradiction|].
+  induction 1 as [|s a n g p v xi r s' Hn Hb Hadm IH]; intros a' n' g' p' v' xi' Hin; [contradiction|].
   destruct Hin as [E|Hin].
   - inversion E. subst. lia.
-  - specialize (IH a' n' g' p' v' Hin). rewrite seq_of_set_seq in IH. rewrite seq_of_add_fee, seq_of_add_bal in IH.
+  - specialize (IH a' n' g' p' v' xi' Hin). rewrite seq_of_set_seq in IH. rewrite seq_of_add_fee, seq_of_add_bal in IH.
     destruct (Nat.eqb a' a) eqn:E; [apply Nat.eqb_eq in E; subst; lia|lia].
 Qed.
 
-(** the handlers of admitted messages never move a sequence below [base] when every nonce is >= base *)
-Lemma run_direct_eth_seq c w ms ls (base : addr -> nat) :
-  direct_eth ms = Some ls ->
-  (forall a n g p v, In (EthTx a n g p v) ls -> (base a <= n)%nat) ->
-  forall s s', (forall b, (base b <= seq_of s b)%nat) -> run_msgs c w ms s = Some s' ->
-  forall b, (base b <= seq_of s' b)%nat.
+(** … and below the sender's sequence after the admission: the nonce is used up *)
+Lemma admit_seq_nonce_lt s ls s1 :
+  admit_seq s ls s1 -> forall a n g p v xi, In (EthTx a n g p v xi) ls -> (n < seq_of s1 a)%nat.
 Proof.
-  revert ls. induction ms as [|m ms IH]; intros ls Hd Hn s s' Hs Hrun b.
-  - unfold run_msgs in Hrun. simpl in Hrun. inversion Hrun. subst. apply Hs.
-  - simpl in Hd. destruct m as [[a n g p v|?|? ? ?|? ? ? ? ? ?]| | | |]; try discriminate.
+  induction 1 as [|s a n g p v xi r s' Hn Hb Hadm IH]; intros a' n' g' p' v' xi' Hin; [contradiction|].
+  destruct Hin as [E|Hin]; [|eapply IH; eauto].
+  inversion E. subst. pose proof (admit_seq_mono _ _ _ Hadm a') as Hm.
+  rewrite seq_of_set_seq, Nat.eqb_refl in Hm. lia.
+Qed.
+
+(** the admission advances every sender's sequence by the number of its messages: each nonce is consumed once *)
+Lemma admit_seq_count s ls s1 : admit_seq s ls s1 -> forall b, seq_of s1 b = (seq_of s b + count_from b ls)%nat.
+Proof.
+  induction 1 as [|s a n g p v xi r s' Hn Hb _ IH]; intro b; [unfold count_from; simpl; lia|].
+  rewrite (IH b), seq_of_set_seq, seq_of_add_fee, seq_of_add_bal. unfold count_from. simpl.
+  destruct (Nat.eqb b a) eqn:E; simpl; [apply Nat.eqb_eq in E; subst; lia|lia].
+Qed.
+
+(** what the msg server writes into the sequences, message by message: msg.nonce + 1 for the sender *)
+Definition step_seq (b : addr) (cur : nat) (l : leaf) : nat :=
+  match l with EthTx a n _ _ _ _ => if Nat.eqb b a then S n else cur | _ => cur end.
+
+Lemma run_direct_eth_fold c w ms ls :
+  cfg_ok c -> direct_eth ms = Some ls ->
+  forall s s', run_msgs c w ms s = Some s' -> forall b, seq_of s' b = fold_left (step_seq b) ls (seq_of s b).
+Proof.
+  intro Hc. revert ls. induction ms as [|m ms IH]; intros ls Hd s s' Hrun b.
+  - simpl in Hd. inversion Hd. subst. unfold run_msgs in Hrun. simpl in Hrun. inversion Hrun. reflexivity.
+  - simpl in Hd. destruct m as [[a n g p v xi|?|? ? ?|? ? ? ? ? ? ?]| | | |]; try discriminate.
     destruct (direct_eth ms) as [r|] eqn:E; [|discriminate]. inversion Hd. subst. clear Hd.
     rewrite run_msgs_cons, run_msg_leaf in Hrun.
-    destruct (leaf_run w s (EthTx a n g p v)) as [s1|] eqn:Hl; [|discriminate].
-    eapply (IH r eq_refl); [| |exact Hrun].
-    + intros. eapply Hn. right. eauto.
-    + intro b'. simpl in Hl.
-      destruct (g <? GAS_TRANSFER); [discriminate|].
-      destruct (bal_of s a <? v); [discriminate|].
-      destruct (feecol s <? refund_of g p); [discriminate|].
-      inversion Hl. subst.
-      change (seq_of (add_ran _ _) b') with (seq_of (set_seq s a (S n)) b').
-      rewrite seq_of_set_seq. destruct (Nat.eqb b' a) eqn:E2.
-      * apply Nat.eqb_eq in E2. subst. specialize (Hn a n g p v (or_introl eq_refl)). lia.
-      * apply Hs.
+    destruct (leaf_run c w s (EthTx a n g p v xi)) as [s1|] eqn:Hl; [|discriminate].
+    rewrite (IH r eq_refl s1 s' Hrun b). simpl.
+    rewrite (leaf_run_eth_seq c w s a n g p v xi s1 (cfg_ok_post_nonce c _ Hc) Hl b). reflexivity.
+Qed.
+
+Lemma admit_seq_fold s ls s1 :
+  admit_seq s ls s1 ->
+  forall b v, fold_left (step_seq b) ls v = if Nat.eqb (count_from b ls) 0 then v else seq_of s1 b.
+Proof.
+  induction 1 as [|s a n g p v xi r s' Hn Hb Hadm IH]; intros b v0; [reflexivity|].
+  simpl. unfold count_from. simpl. destruct (Nat.eqb b a) eqn:E; simpl.
+  - rewrite IH. fold (count_from b r). destruct (Nat.eqb (count_from b r) 0) eqn:E0; [|reflexivity].
+    apply Nat.eqb_eq in E0. rewrite (admit_seq_count _ _ _ Hadm b), E0, seq_of_set_seq, E. lia.
+  - apply IH.
+Qed.
+
+(** with the committed msg server, the handlers of an admitted transaction leave every sequence exactly where the
+    ante chain put it *)
+Lemma run_admitted_keeps_seq c w ms ls s s1 s2 :
+  cfg_ok c -> direct_eth ms = Some ls -> admit_seq s ls s1 -> run_msgs c w ms s1 = Some s2 ->
+  forall b, seq_of s2 b = seq_of s1 b.
+Proof.
+  intros Hc Hd Hadm Hr b. rewrite (run_direct_eth_fold c w ms ls Hc Hd s1 s2 Hr b), (admit_seq_fold _ _ _ Hadm b).
+  destruct (Nat.eqb _ 0); reflexivity.
+Qed.
+
+Lemma deliver_evm_unfold c w s x :
+  route_tx c (t_ext x) = RouteEVM ->
+  deliver c w s x = match evm_ante c w s x with
+                    | None => (s, false)
+                    | Some s1 => match run_msgs c w (t_msgs x) s1 with Some s2 => (s2, true) | None => (s1, false) end
+                    end.
+Proof. intro H. unfold deliver. rewrite H. reflexivity. Qed.
+
+(** NONCE MATCHED AND CONSUMED ONCE, on the state DeliverTx commits: a transaction on the EVM route is either turned
+    away by the ante chain (nothing changes) or every message's nonce equalled its sender's sequence ([admit_seq])
+    and afterwards — whether the messages succeeded or failed as a whole, whatever each EVM execution did (ran,
+    reverted, ran out of gas, was refused for lack of funds before the EVM touched the nonce) — every sender's
+    sequence has advanced by exactly the number of its messages *)
+Theorem evm_tx_consumes_nonces_once c w s x :
+  cfg_ok c -> route_tx c (t_ext x) = RouteEVM ->
+  (evm_ante c w s x = None /\ deliver c w s x = (s, false)) \/
+  (exists ls s1, evm_ante c w s x = Some s1 /\ direct_eth (t_msgs x) = Some ls /\ admit_seq s ls s1 /\
+     forall b, seq_of (fst (deliver c w s x)) b = (seq_of s b + count_from b ls)%nat).
+Proof.
+  intros Hc Hroute. rewrite (deliver_evm_unfold c w s x Hroute).
+  pose proof Hc as (_ & _ & _ & _ & Hgas & Hexact & Hseq & _).
+  destruct (evm_ante c w s x) as [s1|] eqn:Ha; [right|left; auto].
+  destruct (evm_admit_admits c _ _ _ Hgas Hexact Hseq (evm_ante_admit _ _ _ _ _ Ha)) as (ls & Hd & Hadm).
+  exists ls, s1. repeat split; auto. intro b.
+  destruct (run_msgs c w (t_msgs x) s1) as [s2|] eqn:Hr; simpl.
+  - rewrite (run_admitted_keeps_seq c w _ ls s s1 s2 Hc Hd Hadm Hr b). apply admit_seq_count. exact Hadm.
+  - apply admit_seq_count. exact Hadm.
 Qed.
 
 (** no transaction — of any shape, through any route — rewinds the sequence (nonce) of an
@@ -431,42 +575,85 @@ Theorem nonce_never_rewound c w s x :
   forall a, w_is_eth w a = true -> (seq_of s a <= seq_of (fst (deliver c w s x)) a)%nat.
 Proof.
   intros Hc Hw Hwf Hg a Ha.
-  pose proof Hc as (Hsigon & Hsig & Hwasm & Hrecov & Hgas & Hexact & Hseq & _ & Hno & Hother & Hevm).
+  pose proof Hc as (Hsigon & Hsig & Hwasm & Hrecov & Hgas & Hexact & Hseq & _ & _ & _ & Hno & Hother & Hevm).
   destruct (route_tx c (t_ext x)) eqn:Hroute.
   - destruct (nonevm_deliver_frame w c Hw Hwasm Hrecov Hsigon Hsig s x Hwf Hg Hroute) as (_ & _ & He).
     destruct (He a Ha) as [E _]. simpl in E. rewrite E. lia.
-  - unfold deliver. rewrite Hroute. unfold evm_ante.
-    match goal with |- context [if ?b then _ else _] => destruct b end; [|simpl; lia].
-    destruct (evm_admit c (t_msgs x) s) as [s1|] eqn:Hadm0; [|simpl; lia].
-    destruct (evm_admit_admits c _ _ _ Hgas Hexact Hseq Hadm0) as (ls & Hd & Hadm).
-    destruct (run_msgs c w (t_msgs x) s1) as [s2|] eqn:Hr; simpl.
-    + eapply (run_direct_eth_seq c w _ _ (seq_of s) Hd); [|intro b; eapply admit_seq_mono; eauto|exact Hr].
-      intros. eapply admit_seq_nonce_ge; eauto.
-    + eapply admit_seq_mono; eauto.
+  - destruct (evm_tx_consumes_nonces_once c w s x Hc Hroute) as [[_ E]|(ls & s1 & _ & _ & _ & E)].
+    + rewrite E. simpl. lia.
+    + rewrite E. lia.
   - unfold deliver. rewrite Hroute. simpl. lia.
   - unfold deliver. rewrite Hroute. simpl. lia.
 Qed.
 
+Lemma history_grants_ok c w s h :
+  cfg_ok c -> world_ok w -> Forall (tx_wf w) h -> grants_ok w s -> grants_ok w (run_history c w s h).
+Proof. intros Hc Hw Hwf Hg. exact (proj1 (history_eth_only_behind_evm_ante c w s h Hc Hw Hwf Hg)). Qed.
+
+Lemma history_seq_mono c w h :
+  cfg_ok c -> world_ok w -> Forall (tx_wf w) h ->
+  forall s, grants_ok w s -> forall a, w_is_eth w a = true -> (seq_of s a <= seq_of (run_history c w s h) a)%nat.
+Proof.
+  intros Hc Hw. induction h as [|x h IH]; intros Hwf s Hg a Ha; [simpl; lia|].
+  inversion Hwf as [|? ? Hx Hh]. subst.
+  change (run_history c w s (x :: h)) with (run_history c w (fst (deliver c w s x)) h).
+  pose proof (nonce_never_rewound c w s x Hc Hw Hx Hg a Ha) as H1.
+  assert (Hg1 : grants_ok w (fst (deliver c w s x))).
+  { exact (proj1 (deliver_eth_only_behind_evm_ante c w s x Hc Hw Hx Hg)). }
+  pose proof (IH Hh _ Hg1 a Ha). lia.
+Qed.
+
+(** A NONCE ONCE ADMITTED IS NEVER ADMITTED AGAIN: after the EVM ante chain admitted a transaction [x], whatever
+    happened to its messages and whatever history [h] follows, every transaction [y] carrying a message with the same
+    sender and nonce as one of [x]'s — in particular the very same signed bytes delivered again — is turned away by
+    the ante chain and changes nothing *)
+Theorem admitted_nonce_never_admitted_again c w s x h y :
+  cfg_ok c -> world_ok w -> tx_wf w x -> Forall (tx_wf w) h -> grants_ok w s ->
+  route_tx c (t_ext x) = RouteEVM -> route_tx c (t_ext y) = RouteEVM ->
+  forall s1 a n g p v xi g' p' v' xi',
+    evm_ante c w s x = Some s1 ->
+    In (Leaf (EthTx a n g p v xi)) (t_msgs x) -> In (Leaf (EthTx a n g' p' v' xi')) (t_msgs y) ->
+    let t := run_history c w (fst (deliver c w s x)) h in
+    evm_ante c w t y = None /\ deliver c w t y = (t, false).
+Proof.
+  intros Hc Hw Hx Hh Hg Hrx Hry s1 a n g p v xi g' p' v' xi' Hax Hinx Hiny t.
+  pose proof Hc as (_ & _ & _ & _ & Hgas & Hexact & Hseq & _).
+  assert (Ha : w_is_eth w a = true).
+  { unfold tx_wf in Hx. rewrite Forall_forall in Hx. specialize (Hx _ Hinx). unfold msg_wf in Hx. simpl in Hx.
+    inversion Hx as [|? ? Hl _]. exact Hl. }
+  assert (Hlt : (n < seq_of (fst (deliver c w s x)) a)%nat).
+  { destruct (evm_tx_consumes_nonces_once c w s x Hc Hrx) as [[E _]|(ls & s1' & E1 & Hd & Hadm & E)]; [congruence|].
+    rewrite E, <- (admit_seq_count _ _ _ Hadm a). eapply admit_seq_nonce_lt; eauto. eapply direct_eth_In_rev; eauto. }
+  assert (Hg1 : grants_ok w (fst (deliver c w s x))).
+  { exact (proj1 (deliver_eth_only_behind_evm_ante c w s x Hc Hw Hx Hg)). }
+  pose proof (history_seq_mono c w h Hc Hw Hh _ Hg1 a Ha) as Hmono. fold t in Hmono.
+  assert (Hnone : evm_ante c w t y = None).
+  { destruct (evm_ante c w t y) as [t1|] eqn:Hay; [exfalso|reflexivity].
+    destruct (evm_admit_admits c _ _ _ Hgas Hexact Hseq (evm_ante_admit _ _ _ _ _ Hay)) as (ls' & Hd' & Hadm').
+    pose proof (admit_seq_nonce_ge _ _ _ Hadm' a n g' p' v' xi' (direct_eth_In_rev _ _ _ Hd' Hiny)). lia. }
+  split; [exact Hnone|]. rewrite (deliver_evm_unfold c w t y Hry), Hnone. reflexivity.
+Qed.
+
 (** ---------------------------------------------------------------- refunds are covered by prepayments *)
 Definition cost_of (a : addr) (ls : list leaf) : Z :=
-  sumZ (map (fun l => match l with EthTx b _ g p _ => if Nat.eqb a b then (g * p) / WEI else 0 | _ => 0 end) ls).
+  sumZ (map (fun l => match l with EthTx b _ g p _ _ => if Nat.eqb a b then (g * p) / WEI else 0 | _ => 0 end) ls).
 
 Lemma admit_seq_bal s ls s1 : admit_seq s ls s1 -> forall b, bal_of s1 b = bal_of s b - cost_of b ls.
 Proof.
-  induction 1 as [|s a n g p v r s' Hn Hb _ IH]; intro b; [unfold cost_of; simpl; lia|].
+  induction 1 as [|s a n g p v xi r s' Hn Hb _ IH]; intro b; [unfold cost_of; simpl; lia|].
   rewrite (IH b). rewrite bal_of_set_seq, bal_of_add_fee, bal_of_add_bal.
   unfold cost_of. simpl. fold (cost_of b r).
   destruct (Nat.eqb b a) eqn:E; [apply Nat.eqb_eq in E; subst|]; unfold cost_of; lia.
 Qed.
 
 Definition leaf_nonneg (l : leaf) : Prop :=
-  match l with EthTx _ _ g p v => 0 <= g /\ 0 <= p /\ 0 <= v | _ => True end.
+  match l with EthTx _ _ g p v x => 0 <= g /\ 0 <= p /\ 0 <= v /\ 0 <= x_intr x /\ 0 <= x_exec x | _ => True end.
 
 Lemma cost_of_nonneg a ls : Forall leaf_nonneg ls -> 0 <= cost_of a ls.
 Proof.
   induction 1 as [|l r Hl _ IH]; [unfold cost_of; simpl; lia|].
-  unfold cost_of in *. simpl. destruct l as [b n g p v|?|? ? ?|? ? ? ? ? ?]; simpl in *; try lia.
-  destruct (Nat.eqb a b); [|lia]. destruct Hl as (Hg & Hp & Hv).
+  unfold cost_of in *. simpl. destruct l as [b n g p v xi|?|? ? ?|? ? ? ? ? ? ?]; simpl in *; try lia.
+  destruct (Nat.eqb a b); [|lia]. destruct Hl as (Hg & Hp & Hv & _).
   assert (0 <= g * p / WEI) by (apply Z.div_pos; [nia|unfold WEI; lia]). lia.
 Qed.
 
@@ -478,24 +665,14 @@ Proof.
   revert ls. induction ms as [|m ms IH]; intros ls Hd Hnn s s' Hrun b Hb.
   - simpl in Hd. inversion Hd. subst. unfold run_msgs in Hrun. simpl in Hrun. inversion Hrun. subst.
     unfold cost_of. simpl. lia.
-  - simpl in Hd. destruct m as [[a n g p v|?|? ? ?|? ? ? ? ? ?]| | | |]; try discriminate.
+  - simpl in Hd. destruct m as [[a n g p v xi|?|? ? ?|? ? ? ? ? ? ?]| | | |]; try discriminate.
     destruct (direct_eth ms) as [r|] eqn:E; [|discriminate]. inversion Hd. subst. clear Hd.
-    inversion Hnn as [|? ? Hpv Hnn']. subst. simpl in Hpv. destruct Hpv as (Hg0 & Hp & Hv).
+    inversion Hnn as [|? ? Hpv Hnn']. subst. simpl in Hpv. destruct Hpv as (Hg0 & Hp & Hv & Hi & He).
     rewrite run_msgs_cons, run_msg_leaf in Hrun.
-    destruct (leaf_run w s (EthTx a n g p v)) as [s1|] eqn:Hl; [|discriminate].
+    destruct (leaf_run c w s (EthTx a n g p v xi)) as [s1|] eqn:Hl; [|discriminate].
     specialize (IH r eq_refl Hnn' s1 s' Hrun b Hb).
-    simpl in Hl.
-    destruct (g <? GAS_TRANSFER) eqn:Hg; [discriminate|].
-    destruct (bal_of s a <? v); [discriminate|].
-    destruct (feecol s <? refund_of g p); [discriminate|].
-    inversion Hl. subst. clear Hl.
-    change (bal_of (add_ran ?x _) b) with (bal_of x b) in IH.
-    rewrite bal_of_add_fee, !bal_of_add_bal, bal_of_set_seq in IH.
-    unfold cost_of. simpl. fold (cost_of b r).
-    destruct (Nat.eqb b (w_sink w)) eqn:E1; [apply Nat.eqb_eq in E1; contradiction|].
-    assert (Hle : refund_of g p <= g * p / WEI).
-    { unfold refund_of, GAS_TRANSFER. apply Z.div_le_mono; [unfold WEI; lia|nia]. }
-    destruct (Nat.eqb b a) eqn:E2; [apply Nat.eqb_eq in E2; subst|rewrite bal_of_set_seq in IH]; lia.
+    pose proof (leaf_run_eth_bal c w s a n g p v xi s1 Hp Hv Hi He Hl b Hb) as H1.
+    unfold cost_of. simpl. fold (cost_of b r). lia.
 Qed.
 
 Lemma direct_eth_basic ms ls :
@@ -503,11 +680,11 @@ Lemma direct_eth_basic ms ls :
 Proof.
   revert ls. induction ms as [|m ms IH]; intros ls Hd Hb; simpl in Hd.
   - inversion Hd. constructor.
-  - destruct m as [[a n g p v|?|? ? ?|? ? ? ? ? ?]| | | |]; try discriminate.
+  - destruct m as [[a n g p v xi|?|? ? ?|? ? ? ? ? ? ?]| | | |]; try discriminate.
     destruct (direct_eth ms) as [r|] eqn:E; [|discriminate]. inversion Hd. subst.
     simpl in Hb. apply andb_true_iff in Hb as [H1 H2].
     constructor; [|apply IH; auto].
-    simpl. apply andb_true_iff in H1 as [H1 Hv]. apply andb_true_iff in H1 as [Hg Hp]. lia.
+    simpl. repeat (apply andb_true_iff in H1 as [H1 ?]). lia.
 Qed.
 
 (** whatever the transaction, an Ethereum-derived account never ends with more than it had: the only credit
@@ -518,7 +695,7 @@ Theorem refund_covered_by_prepayment c w s x :
   forall a, w_is_eth w a = true -> bal_of (fst (deliver c w s x)) a <= bal_of s a.
 Proof.
   intros Hc Hvb Hw Hwf Hg a Ha.
-  pose proof Hc as (Hsigon & Hsig & Hwasm & Hrecov & Hgas & Hexact & Hseq & _ & Hno & Hother & Hevm).
+  pose proof Hc as (Hsigon & Hsig & Hwasm & Hrecov & Hgas & Hexact & Hseq & _ & _ & _ & Hno & Hother & Hevm).
   destruct (route_tx c (t_ext x)) eqn:Hroute.
   - destruct (nonevm_deliver_frame w c Hw Hwasm Hrecov Hsigon Hsig s x Hwf Hg Hroute) as (_ & _ & He).
     destruct (He a Ha) as [_ E]. simpl in E. rewrite E. lia.
@@ -539,7 +716,7 @@ Proof.
 Qed.
 
 (** ---------------------------------------------------------------- what the statement needs: refutations *)
-Definition eth (a : addr) (n : nat) (g : Z) : msg := Leaf (EthTx a n g WEI 1).
+Definition eth (a : addr) (n : nat) (g : Z) : msg := Leaf (EthTx a n g WEI 1 (x_transfer WEI)).
 Definition evm_tx (ms : list msg) : tx := {| t_ext := EvmExt; t_signer := 98; t_key := KNone; t_fee := 1000000; t_msgs := ms |}.
 Definition cos_tx (s : addr) (ms : list msg) : tx := {| t_ext := NoExt; t_signer := s; t_key := KCosmos; t_fee := 1000000; t_msgs := ms |}.
 Definition ek_tx (s : addr) (ms : list msg) : tx := {| t_ext := NoExt; t_signer := s; t_key := KEth; t_fee := 1000000; t_msgs := ms |}.
@@ -557,6 +734,7 @@ Definition cfg_eth_keys_accepted : cfg :=
   {| nonevm_known := true; evm_route := RouteEVM; other_route := RouteReject; other_decodable := false;
      g_prevent := true; g_authz := true; g_authz_exec := true; g_authz_rec := false; vb_on := true; sig_on := true; sig_accepts_eth := true; signer_recovered := true;
      fee_on := true; seq_on := true; e_vb := true; e_sig := true; e_acc := true; e_gas := true; fee_exact := true; e_seq := true;
+     nonce_reset := true; post_nonce_call := true; post_nonce_create := true;
      wasm_signer := true; wasm_no_eth := true |}.
 
 Lemma refuted_if_eth_keys_sign_cosmos_txs :
@@ -578,13 +756,14 @@ Definition cfg_signer_from_field : cfg :=
   {| nonevm_known := true; evm_route := RouteEVM; other_route := RouteReject; other_decodable := false;
      g_prevent := true; g_authz := true; g_authz_exec := true; g_authz_rec := false; vb_on := true; sig_on := true; sig_accepts_eth := false; signer_recovered := false;
      fee_on := true; seq_on := true; e_vb := true; e_sig := true; e_acc := true; e_gas := true; fee_exact := true; e_seq := true;
+     nonce_reset := true; post_nonce_call := true; post_nonce_create := true;
      wasm_signer := true; wasm_no_eth := true |}.
 
 Lemma refuted_if_signers_read_from_field :
   exists h x a, Forall (tx_wf harness_world) (h ++ [x]) /\ violated_by cfg_signer_from_field h x a.
 Proof.
   exists [evm_tx [eth 20 0 21000]; evm_tx [eth 20 1 21000]; evm_tx [eth 20 2 21000]],
-         (cos_tx 1 [Exec 1 [Exec 1 [Leaf (EthTxAs 1 20 0 50000 WEI 1)]]]), 20%nat.
+         (cos_tx 1 [Exec 1 [Exec 1 [Leaf (EthTxAs 1 20 0 50000 WEI 1 (x_transfer WEI))]]]), 20%nat.
   split.
   - repeat constructor.
   - unfold violated_by. vm_compute. repeat split; try discriminate; auto.
@@ -595,6 +774,7 @@ Definition cfg_wasm_signer_unchecked : cfg :=
   {| nonevm_known := true; evm_route := RouteEVM; other_route := RouteReject; other_decodable := false;
      g_prevent := true; g_authz := true; g_authz_exec := true; g_authz_rec := false; vb_on := true; sig_on := true; sig_accepts_eth := false; signer_recovered := true;
      fee_on := true; seq_on := true; e_vb := true; e_sig := true; e_acc := true; e_gas := true; fee_exact := true; e_seq := true;
+     nonce_reset := true; post_nonce_call := true; post_nonce_create := true;
      wasm_signer := false; wasm_no_eth := true |}.
 
 Lemma refuted_if_wasm_signer_unchecked :
@@ -612,6 +792,7 @@ Definition cfg_no_nonce_check : cfg :=
   {| nonevm_known := true; evm_route := RouteEVM; other_route := RouteReject; other_decodable := false;
      g_prevent := true; g_authz := true; g_authz_exec := true; g_authz_rec := false; vb_on := true; sig_on := true; sig_accepts_eth := false; signer_recovered := true;
      fee_on := true; seq_on := true; e_vb := true; e_sig := true; e_acc := true; e_gas := true; fee_exact := true; e_seq := false;
+     nonce_reset := true; post_nonce_call := true; post_nonce_create := true;
      wasm_signer := true; wasm_no_eth := true |}.
 
 Lemma refuted_if_nonce_decorator_dropped :
@@ -621,9 +802,9 @@ Proof.
 Qed.
 
 (** per message: the refund never exceeds the exact prepayment WeiToNative(gas limit × price) … *)
-Lemma refund_le_exact_prepay g p : 0 <= p -> refund_of g p <= prepay true g p.
+Lemma refund_le_exact_prepay g used p : 0 <= p -> 0 <= used -> refund_of g used p <= prepay true g p.
 Proof.
-  intro Hp. unfold refund_of, prepay, GAS_TRANSFER. apply Z.div_le_mono; [unfold WEI; lia|nia].
+  intros Hp Hu. unfold refund_of, prepay. apply Z.div_le_mono; [unfold WEI; lia|nia].
 Qed.
 
 (** … but it does exceed a prepayment computed from the price truncated to whole unibi per gas: with
@@ -633,14 +814,41 @@ Definition cfg_fee_per_gas : cfg :=
   {| nonevm_known := true; evm_route := RouteEVM; other_route := RouteReject; other_decodable := false;
      g_prevent := true; g_authz := true; g_authz_exec := true; g_authz_rec := false; vb_on := true; sig_on := true; sig_accepts_eth := false; signer_recovered := true;
      fee_on := true; seq_on := true; e_vb := true; e_sig := true; e_acc := true; e_gas := true; fee_exact := false; e_seq := true;
+     nonce_reset := true; post_nonce_call := true; post_nonce_create := true;
      wasm_signer := true; wasm_no_eth := true |}.
 
 Lemma refuted_if_fee_priced_per_truncated_gas_price :
   exists x a, tx_wf harness_world x /\ t_ext x = EvmExt /\
     bal_of harness_init a < bal_of (fst (deliver cfg_fee_per_gas harness_world harness_init x)) a.
 Proof.
-  exists (evm_tx [Leaf (EthTx 20 0 21000 (3 * WEI) 1); Leaf (EthTx 21 0 100000 (2 * WEI - 1) 1)]), 21%nat.
+  exists (evm_tx [Leaf (EthTx 20 0 21000 (3 * WEI) 1 (x_transfer (3 * WEI))); Leaf (EthTx 21 0 100000 (2 * WEI - 1) 1 (x_transfer (2 * WEI - 1)))]), 21%nat.
   split; [repeat constructor|]. split; [reflexivity|]. vm_compute. reflexivity.
+Qed.
+
+(** the write of msg.nonce + 1 after evm.Create dropped ("evm.Create increments the caller nonce itself"): a contract
+    creation carrying a value the sender can pay, or pay the gas prepayment at the base fee for, but not both (gas
+    price below the base fee: the balance check prices the gas lower than the deduction does) is admitted, charged
+    and INCLUDED with a VM error — evm.Create stopped at its balance check, before its own nonce increment, and the
+    reset to msg.nonce stands: the sequence is back where it was, and the very same signed bytes are admitted again *)
+Definition cfg_create_nonce_not_bumped : cfg :=
+  {| nonevm_known := true; evm_route := RouteEVM; other_route := RouteReject; other_decodable := false;
+     g_prevent := true; g_authz := true; g_authz_exec := true; g_authz_rec := false; vb_on := true; sig_on := true; sig_accepts_eth := false; signer_recovered := true;
+     fee_on := true; seq_on := true; e_vb := true; e_sig := true; e_acc := true; e_gas := true; fee_exact := true; e_seq := true;
+     nonce_reset := true; post_nonce_call := true; post_nonce_create := false;
+     wasm_signer := true; wasm_no_eth := true |}.
+
+Definition x_create_for_free : xinfo := {| x_kind := XCreate; x_cap := 0; x_intr := 53004; x_exec := 0; x_out := XStop |}.
+Definition tx_create_with_value : tx := evm_tx [Leaf (EthTx 23 0 100000 WEI 320000 x_create_for_free)].
+
+Lemma refuted_if_create_skips_post_nonce :
+  exists x l, tx_wf harness_world x /\ t_ext x = EvmExt /\
+    let d1 := deliver cfg_create_nonce_not_bumped harness_world harness_init x in
+    let d2 := deliver cfg_create_nonce_not_bumped harness_world (fst d1) x in
+    snd d1 = true /\ seq_of (fst d1) 23 = seq_of harness_init 23 /\ bal_of (fst d1) 23 < bal_of harness_init 23 /\
+    snd d2 = true /\ ran (fst d2) = [l; l].
+Proof.
+  exists tx_create_with_value. eexists. split; [repeat constructor|]. split; [reflexivity|].
+  vm_compute. repeat split; reflexivity.
 Qed.
 
 (** ---------------------------------------------------------------- non-vacuity *)
@@ -653,6 +861,15 @@ Proof.
   - intros ctr snd H. apply andb_true_iff in H as [H _]. apply Nat.eqb_eq in H. subst. reflexivity.
   - intros a H. discriminate.
 Qed.
+
+(** the same transaction on the committed code: admitted once (the creation fails in the VM for lack of funds, the
+    nonce is consumed, the gas is paid), turned away the second time *)
+Example create_with_value_consumes_nonce_once :
+  let d1 := deliver cfg_current harness_world harness_init tx_create_with_value in
+  let d2 := deliver cfg_current harness_world (fst d1) tx_create_with_value in
+  snd d1 = true /\ seq_of (fst d1) 23 = 1%nat /\ bal_of (fst d1) 23 = POOR - 53004 /\
+  snd d2 = false /\ fst d2 = fst d1 /\ List.length (ran (fst d2)) = 1%nat.
+Proof. vm_compute. repeat split; reflexivity. Qed.
 
 Example harness_init_grants_ok : grants_ok harness_world harness_init.
 Proof. intros a b k []. Qed.
